@@ -150,6 +150,42 @@ def chain_below(v):
     return out
 
 
+def gen_loc_chain(g):
+    """a document, one of its nodes (not the root), and the path that spells the node's location, written as Coq's chain_path
+    writes it (names in any of the three spellings, indexes in decimal): (doc, text, spec for keyc, location, value)"""
+    r = g.r
+    for _ in range(20):
+        doc = g.doc(4, False, 0)
+        cur, text, spec, loc = doc, '$', [], ''
+        while cur[0] in 'ao' and cur[1] and (not spec or r.random() < 0.75):
+            if cur[0] == 'a':
+                n_ = r.randrange(len(cur[1]))
+                digits = ('0' * r.choice([0, 0, 1])) + str(n_)
+                text += '[' + digits + ']'
+                spec.append((1, [ord(ch) for ch in digits]))
+                loc += '/i%d' % n_
+                cur = cur[1][n_]
+            else:
+                keys = sorted({kk for kk, _ in cur[1]})
+                kb = r.choice(keys)
+                key = kb.decode('utf-8')
+                dot = gens.esc_dot(kb)
+                style = r.choice("'\"." if dot is not None else "'\"")
+                cps_ = [ord(ch) for ch in key]
+                if style == '.':
+                    text += '.' + dot.decode('utf-8')
+                    spec.append((0, cps_))
+                else:
+                    body = ''.join('\\' + ch if ch in (style, '\\') else ('\\u%04x' % ord(ch) if ord(ch) < 0x20 else ch) for ch in key)
+                    text += '[' + style + body + style + ']'
+                    spec.append((ord(style), cps_))
+                loc += '/k' + core.hx(kb)
+                cur = [x for kk, x in cur[1] if kk == kb][-1]
+        if spec:
+            return doc, text, spec, loc, cur
+    return None
+
+
 def gen_chain(g):
     """a document and a path of steps written as Coq's chain_path writes them: (doc, text, spec for keyc, values reached)"""
     r = g.r
@@ -1873,6 +1909,18 @@ class C13(Prop):
             steps = g.gen_path(doc, 4, 0.15)
             f, a = gens.funcs_used(steps)
             cases.append(Case('l%d' % i, gens.render_path(steps), [doc], f, a, True, False, 'loc'))
+        # C13_accessor_from_text: the path that spells the location of a node (the driver confirms it is Coq chain_path):
+        # exactly one accessor, writing exactly that location
+        want_loc = {}
+        for i in range(ctx.n(300, 3000) * budget_scale):
+            lc = gen_loc_chain(g)
+            if lc is None:
+                continue
+            doc, text, spec, loc, val = lc
+            c = Case('lt%d' % i, text.encode('utf-8'), [doc], [], [], True, False, 'loc', meta={'family': 'coq-location-path', 'nsteps': len(spec)})
+            c.keyc = spec
+            want_loc[c.id] = (loc, core.doc_render(val))
+            cases.append(c)
         for c in cases:
             c.acc, c.mode = True, 'loc'
         go, mo = both_sides(cases)
@@ -1882,6 +1930,15 @@ class C13(Prop):
             if hp:
                 res.violation('broken-correspondence', 'harness:' + hp[:60], hp, c)
                 continue
+            if c.id in want_loc:
+                if m.get('KP') != '1':
+                    res.violation('broken-correspondence', 'harness:chain_path', 'the path sent is not Coq chain_path of its steps', c)
+                    continue
+                wl, wv = want_loc[c.id]
+                if g_.get('L0') != wl or g_.get('R0') != 'ok:[A(1,%s)]' % wv:
+                    res.violation('concrete', sig_of(c, 'location-from-text'),
+                                  'the path %r spells the location %s: one settable accessor writing exactly there' % (c.path, wl), c,
+                                  expected={'L0': wl, 'R0': 'ok:[A(1,%s)]' % wv}, observed={'L0': g_.get('L0'), 'R0': g_.get('R0')})
             r0 = g_.get('R0', '')
             if not r0.startswith('ok:[') or not m.get('R0', '').startswith('ok:['):
                 if cls_of(r0 or g_.get('P', '')) != cls_of(m.get('R0', '') or m.get('P', '')):
